@@ -331,6 +331,8 @@ pub fn gen_c09(o: &mut Out, tier: &str, seed: u64) {
     let mut r = Rng::new(seed, "c09");
     let th = tier == "thorough";
     let reps = if th { 30 } else { 2 };
+    // handle extraction from the Pod form by index: every out-of-range index is an error
+    extract_family(o, &mut r, th);
     for _ in 0..reps {
         let k = kp(&mut r);
         o.op("pubkey", &format!("elg pubkey {}", hs(&k.s)));
